@@ -128,7 +128,9 @@ class SymStr:
                     raise UnicodeEncodeError("ascii", "?" * len(self._cps), i, i + 1,
                                              "ordinal not in range(128)")
             return mkbytes(out)
-        if enc in ("utf_16_le", "utf_16le"):
+        if enc in ("utf_16_le", "utf_16le", "utf_16", "utf16"):
+            if enc in ("utf_16", "utf16"):
+                out.extend([0xFF, 0xFE])          # byte order mark, native (little-endian) order
             for i, c in enumerate(self._cps):
                 if c < 0xD800 or ((c >= 0xE000) & (c < 0x10000)):
                     out.append(c & 0xFF)
@@ -169,6 +171,16 @@ def decode(items, encoding="utf-8", errors="strict"):
                 raise UnicodeDecodeError("ascii", b"?" * len(items), i, i + 1,
                                          "ordinal not in range(128)")
         return mkstr(cps)
+    if enc in ("utf_16", "utf16"):
+        # a byte order mark selects the byte order and is consumed; without one the native order
+        # (little-endian) applies
+        if len(items) >= 2:
+            u0 = items[0] | (items[1] << 8)
+            if u0 == 0xFEFF:
+                return decode(items[2:], "utf_16_le", errors)
+            if u0 == 0xFFFE:
+                raise Unsupported("big-endian UTF-16 of symbolic bytes")
+        return decode(items, "utf_16_le", errors)
     if enc in ("utf_16_le", "utf_16le"):
         n = len(items)
         i = 0
